@@ -47,6 +47,11 @@ var c17Faults = []struct {
 	{"failing-builtin", blk(0, "(nth [] 3)")},
 	{"failing-builtin-multiline", blk(0, "(nth", "  []", "  3)")},
 	{"failed-assert", blk(0, `(assert false "zz-assert")`)},
+	// the thrown value is a datum that was itself written somewhere in the text: in another top-level
+	// form (one of the fillers binds zz-datum; without it the fault is the undefined symbol), or on the
+	// lines after the throw
+	{"throw-datum-written-elsewhere", blk(0, "(throw zz-datum)")},
+	{"throw-quoted-datum-multiline", blk(0, "(throw", "  '(zz-failed", "     :reason 1))")},
 	{"call-non-function", blk(0, "(1 2)")},
 	// the faulty call is an operand of a threading macro, which rebuilds it (the rebuilt form has no
 	// source position of its own): last stage, middle stage, and a non-function
@@ -82,6 +87,7 @@ var c17Fillers = []c17block{
 	blk(-1, "", ""),
 	blk(-1, "(def s1 ¬line one", "line two (", "line three¬)"),
 	blk(-1, "(def f1 (fn [a]", "  (list a", "        a)))"),
+	blk(-1, "(def zz-datum", "  '(check-failed", "     :reason \"r\"))"),
 }
 
 type c17delivery struct {
